@@ -73,21 +73,35 @@ theorem point_roundtrip (o : AngOpts) (m : GridIn) (cols : PropCols) (pl : List 
     (hout : outRow angWriter o m cols pl j p = some r)
     (hknown : isIndexed p = true → (pl.findIdx? (·.id == p.phaseId)).isSome = true)
     (hci : isIndexed p = true → specVal m o.index p cols.ci ≠ -100000)
-    (hgeo : m.oneD = true → j < m.ncols ∧ (m.dx ≠ 0 ∨ m.dy = 0)) :
+    (hgeo : m.oneD = true → j < m.ncols) :
     finalPt r = quantPt o m cols pl j p := by
-  have hy : ((j / m.ncols : Nat) : Int) * (if m.oneD = true then angWriter.scale else m.dy)
-      = if m.oneD = true then (if m.dx = 0 then (j : Int) * m.dy else 0)
-        else ((j / m.ncols : Nat) : Int) * m.dy := by
+  have hxy : ((j % wNcols m : Nat) : Int) * wDx angWriter m = ((j % m.ncols : Nat) : Int) * m.dx ∧
+      ((j / wNcols m : Nat) : Int) * wDy angWriter m
+        = (if m.oneD = true then (if m.dx = 0 then (j : Int) * m.dy else 0)
+           else ((j / m.ncols : Nat) : Int) * m.dy) := by
     by_cases h1 : m.oneD = true
-    · obtain ⟨hj, hd⟩ := hgeo h1
-      have : j / m.ncols = 0 := Nat.div_eq_of_lt hj
-      simp only [h1, if_true, this]
-      by_cases hdx : m.dx = 0
-      · rcases hd with hd | hd
-        · exact absurd hdx hd
-        · simp [hdx, hd]
-      · simp [hdx]
-    · simp [h1]
+    · have hj := hgeo h1
+      by_cases hc : m.dx = 0 ∧ m.dy ≠ 0
+      · have hcol : isColumn m = true := by simp [isColumn, h1, hc.1, hc.2]
+        simp [wNcols, wDx, wDy, h1, hcol, hc.1, Nat.mod_one]
+      · have hcol : isColumn m = false := by
+          simp only [isColumn, h1, Bool.true_and, Bool.and_eq_false_iff, beq_eq_false_iff_ne, ne_eq,
+            bne_eq_false_iff_eq]
+          by_cases hdx : m.dx = 0
+          · right
+            by_contra hdy
+            exact hc ⟨hdx, hdy⟩
+          · left; exact hdx
+        have hdiv : j / m.ncols = 0 := Nat.div_eq_of_lt hj
+        by_cases hdx : m.dx = 0
+        · have hdy : m.dy = 0 := by
+            by_contra hdy
+            exact hc ⟨hdx, hdy⟩
+          simp [wNcols, wDx, wDy, h1, hcol, hdiv, hdx, hdy]
+        · simp [wNcols, wDx, wDy, h1, hcol, hdiv, hdx]
+    · have hcol : isColumn m = false := by simp [isColumn, h1]
+      simp [wNcols, wDx, wDy, h1, hcol]
+  obtain ⟨hx', hy⟩ := hxy
   unfold outRow at hout
   unfold quantPt
   by_cases hi : isIndexed p = true
@@ -109,13 +123,13 @@ theorem point_roundtrip (o : AngOpts) (m : GridIn) (cols : PropCols) (pl : List 
         | none => simp [hf] at hk
         | some i => simp [newPhaseId, hin, hf]
       have hx : cols.extras.map (specVal m o.index p) = ex := mapM_getD (colVal m o.index p) 0 _ _ hex
-      simp only [finalPt, pt0, hcib, if_false, hy, hph, he, Option.getD_some, specVal, ha, hb, hc, hd]
+      simp only [finalPt, pt0, hcib, if_false, hx', hy, hph, he, Option.getD_some, specVal, ha, hb, hc, hd]
       rw [← hx]; rfl
     · simp at hout
   · have hi' : isIndexed p = false := by simpa using hi
     simp only [hi', Bool.false_eq_true, if_false, Option.some.injEq] at hout ⊢
     subst hout
-    simp only [finalPt, pt0, hy]
+    simp only [finalPt, pt0, hx', hy]
     simp [angWriter, specEulerSentinel, specSentinels, specScale]
 
 /-! ### well-formedness and the whole file -/
@@ -124,8 +138,9 @@ theorem point_roundtrip (o : AngOpts) (m : GridIn) (cols : PropCols) (pl : List 
 writer options for the C14 round trip.  Each conjunct is exercised against the implementation at a point
 it excludes (harness strata `known/…`, see the evidence). -/
 structure AngWF (o : AngOpts) (m : GridIn) : Prop where
-  /-- phase names are single non-empty words (the reader keeps only the last word of `Formula`) -/
-  names_single : ∀ p ∈ phasesNoNI m.phases, splitWs p.name = [p.name]
+  /-- phase names are non-empty and whitespace-normalised (words separated by single spaces): the header
+  fields are split at whitespace and re-joined -/
+  names_normal : ∀ p ∈ phasesNoNI m.phases, p.name ≠ [] ∧ joinSp (splitWs p.name) = p.name
   /-- point groups are groups the library knows -/
   pg_known : ∀ p ∈ phasesNoNI m.phases, ∀ g, p.pg = some g → g ∈ properSubgroup.map (·.1)
   /-- extra property names survive `lstrip(" ").replace(" ", "_")` -/
@@ -133,8 +148,8 @@ structure AngWF (o : AngOpts) (m : GridIn) : Prop where
   /-- … are not called like a standard column or a reader key -/
   extras_fresh : ∀ e ∈ o.extra.getD [], e ∉ baseNames ∧ e ∉ angReader.dataKeys
   extras_nodup : (o.extra.getD []).Nodup
-  /-- a 1-D map lies along x (a column map is written with all coordinates zero) -/
-  geometry : m.oneD = true → m.pts.length ≤ m.ncols ∧ (m.dx ≠ 0 ∨ m.dy = 0)
+  /-- a 1-D map has `ncols` points (`nrows`, `ncols` describe the map as CrystalMap reports it) -/
+  geometry : m.oneD = true → m.pts.length ≤ m.ncols
   /-- the confidence-index column of an indexed point is not the not-indexed marker -1 -/
   ci_free : ∀ cols, resolveProps angWriter o m = some cols →
     ∀ p ∈ m.pts, isIndexed p = true → specVal m o.index p cols.ci ≠ -100000
@@ -207,7 +222,7 @@ theorem roundtrip_main (o : AngOpts) (m : GridIn) (f : AngFile) (hwf : AngWF o m
       readAng angReader 100000 f = some (false, quantise properSubgroup o m cols) := by
   have hpg : ∀ p ∈ phasesNoNI m.phases, symOk p.pg = true :=
     fun p hp => symOk_of_known _ (hwf.pg_known p hp)
-  obtain ⟨bs, hb1, hb2, hb3, hb4⟩ := phaseBlocks_spec 1 (phasesNoNI m.phases) hwf.names_single hpg
+  obtain ⟨bs, hb1, hb2, hb3, hb4⟩ := phaseBlocks_spec 1 (phasesNoNI m.phases) hwf.names_normal hpg
   unfold writeAng at hw
   simp only [hb1] at hw
   cases hc : resolveProps angWriter o m with
@@ -248,8 +263,8 @@ theorem roundtrip_main (o : AngOpts) (m : GridIn) (f : AngFile) (hwf : AngWF o m
         rcases hxb with rfl | rfl | rfl | rfl | rfl | rfl | rfl <;> exact ⟨rfl, rfl⟩
       have hvc : vendorColumns angReader
             (([HLine.other, .other, .other, .other, .other, .other] ++ (bs.map Blk.lines).reverse.flatten
-              ++ [.other, .grid (S "XSTEP") m.dx, .grid (S "YSTEP") m.dy, .grid (S "NCOLS_ODD") m.ncols,
-                  .grid (S "NCOLS_EVEN") m.ncols, .grid (S "NROWS") m.nrows, .other, .other, .other, .other,
+              ++ [.other, .grid (S "XSTEP") m.dx, .grid (S "YSTEP") m.dy, .grid (S "NCOLS_ODD") (wNcols m),
+                  .grid (S "NCOLS_EVEN") (wNcols m), .grid (S "NROWS") (wNrows m), .other, .other, .other, .other,
                   .other, .other, .other])
               ++ .columnNames (angWriter.columnHeader ++ (o.extra.getD [])) :: [.other])
             (10 + (o.extra.getD []).length)
@@ -295,7 +310,7 @@ theorem roundtrip_main (o : AngOpts) (m : GridIn) (f : AngFile) (hwf : AngWF o m
           obtain ⟨_, hj, hp⟩ := zipIdxFrom_mem 0 m.pts jp.1 jp.2 hjp
           exact point_roundtrip o m cols _ jp.1 jp.2 r hout (hwf.phases_known _ hp)
             (hwf.ci_free cols hc _ hp)
-            (fun h1 => ⟨by have := (hwf.geometry h1).1; omega, (hwf.geometry h1).2⟩))
+            (fun h1 => by have := hwf.geometry h1; omega))
       have hrec : reconcile ((rows.map finalPt).map (·.phaseId))
             (quantPhases properSubgroup 1 (phasesNoNI m.phases))
           = some (if (!(m.pts.all isIndexed)) = true
@@ -310,8 +325,8 @@ theorem roundtrip_main (o : AngOpts) (m : GridIn) (f : AngFile) (hwf : AngWF o m
         intro r hr'
         rw [rowOf_length, hlen r hr']
       -- assemble
-      have hh := hph [.other, .grid (S "XSTEP") m.dx, .grid (S "YSTEP") m.dy, .grid (S "NCOLS_ODD") m.ncols,
-            .grid (S "NCOLS_EVEN") m.ncols, .grid (S "NROWS") m.nrows, .other, .other, .other, .other,
+      have hh := hph [.other, .grid (S "XSTEP") m.dx, .grid (S "YSTEP") m.dy, .grid (S "NCOLS_ODD") (wNcols m),
+            .grid (S "NCOLS_EVEN") (wNcols m), .grid (S "NROWS") (wNrows m), .other, .other, .other, .other,
             .other, .other, .other, .columnNames (angWriter.columnHeader ++ (o.extra.getD [])), .other]
           (by intro x hx
               simp only [List.mem_cons, List.not_mem_nil, or_false] at hx
